@@ -341,6 +341,15 @@ where
         let complex = self.make_complex();
         let derivative = complex.derivative();
 
+        // All roots lie within the Cauchy bound 1 + max |c_k / c_n|
+        let lead = complex.coefficients.last().unwrap().abs();
+        let root_bound = complex
+            .coefficients
+            .iter()
+            .map(|c| c.abs() / lead)
+            .fold(N::RealField::zero(), |acc, c| acc.max(c))
+            + N::RealField::one();
+
         let mut guess = Complex::<N::RealField>::zero();
         let mut k = 0;
         'out: while k < n_max {
@@ -358,10 +367,24 @@ where
                 .sqrt();
             let plus = deriv_quotient + sqrt;
             let minus = deriv_quotient - sqrt;
-            let a = if plus.abs() > minus.abs() {
-                order / plus
+            let denom = if plus.abs() > minus.abs() { plus } else { minus };
+            // A step that leaves the disc containing all roots is meaningless. It occurs at
+            // (nearly) critical points where both derivatives (nearly) vanish, e.g. x^n - c
+            // at the origin: step by the geometric mean of the distances to the roots instead
+            let a = if denom.abs() * (root_bound + guess.abs()) > order.re {
+                order / denom
             } else {
-                order / minus
+                let radius = (val.abs() / lead).powf(order.re.recip());
+                let angle = N::RealField::from_f64(0.5).unwrap();
+                -Complex::<N::RealField>::new(radius * angle.cos(), radius * angle.sin())
+            };
+            // Every so often take a fractional step to break (rare) limit cycles,
+            // as in Numerical Recipes' laguer
+            let a = if k % 10 == 9 {
+                let fractions = [0.5, 0.25, 0.75, 0.13, 0.38, 0.62, 0.88, 1.0];
+                a * Complex::<N::RealField>::from_f64(fractions[(k / 10) % 8]).unwrap()
+            } else {
+                a
             };
             guess -= a;
             k += 1;
